@@ -32,6 +32,7 @@ type Prog struct {
 	lockInfo  *LockInfo
 	inCallSiteBound int
 	immutableField map[string]bool
+	onlyWriter     map[*ssa.Store]bool
 	removed   map[*ssa.Function]bool // helpers that the variant inlined everywhere (dead code in the variant)
 	Variant   string // "" = the program as written; otherwise the name of the equivalent variant (variant.go)
 }
